@@ -1291,3 +1291,388 @@ Proof.
 Qed.
 End PlaneWave.
 Unset Default Proof Using.
+
+(* ------------------------------------------------------------------ *)
+(* venn: the whole result under bin-aligned chunkings                  *)
+(* ------------------------------------------------------------------ *)
+(* any linear functional of the result vector *)
+Definition vcodes (n : Z) : list Z := map (fun k => k + 1) (zrange (Z.to_nat (2 ^ n - 1))).
+Definition wsumv (n : Z) (w : Z -> Z) (res : list Z) : Z :=
+  zsum (map (fun c => w c * nth (Z.to_nat (c - 1)) res 0) (vcodes n)).
+
+Lemma add_code_w n (w : Z -> Z) pre bs :
+  n = 2 \/ n = 3 -> length pre = Z.to_nat (2 ^ n - 1) -> length bs = Z.to_nat n ->
+  existsb (fun b => b) bs = true ->
+  length (add_at pre (vec_code bs - 1) 1) = length pre /\
+  wsumv n w (add_at pre (vec_code bs - 1) 1) = wsumv n w pre + w (vec_code bs).
+Proof.
+  intros [-> | ->] Hp Hb Hex.
+  - destruct pre as [|p1 [|p2 [|p3 [|? ?]]]]; try discriminate Hp.
+    destruct bs as [|b1 [|b2 [|? ?]]]; try discriminate Hb.
+    destruct b1, b2; try discriminate Hex;
+      (split; [reflexivity | cbv -[Z.add Z.mul]; cbn; lia]).
+  - destruct pre as [|p1 [|p2 [|p3 [|p4 [|p5 [|p6 [|p7 [|? ?]]]]]]]]; try discriminate Hp.
+    destruct bs as [|b1 [|b2 [|b3 [|? ?]]]]; try discriminate Hb.
+    destruct b1, b2, b3; try discriminate Hex;
+      (split; [reflexivity | cbv -[Z.add Z.mul]; cbn; lia]).
+Qed.
+
+Definition gw (w : Z -> Z) (col : list Z) (i : Z) : Z :=
+  if zmaxl col - i >? 0 then w (vec_code (map (fun c => c >=? zmaxl col - i) col)) else 0.
+(* contribution of one bin to the functional *)
+Definition Fw (w : Z -> Z) (col : list Z) : Z := zsum (map (gw w col) (zrange (Z.to_nat (zmaxl col)))).
+
+Lemma col_step_w n w pre col i :
+  n = 2 \/ n = 3 -> length pre = Z.to_nat (2 ^ n - 1) -> length col = Z.to_nat n -> 0 <= i ->
+  let pre' := accumulate pre (level_codes [col] i) in
+  length pre' = length pre /\ wsumv n w pre' = wsumv n w pre + gw w col i.
+Proof.
+  intros Hn Hp Hc Hi. unfold level_codes, gw. cbn [flat_map]. rewrite app_nil_r.
+  destruct (Z.gtb_spec (zmaxl col - i) 0) as [G|G].
+  - unfold accumulate. cbn [fold_left].
+    apply (add_code_w n w pre (map (fun c => c >=? zmaxl col - i) col) Hn Hp);
+      [now rewrite map_length | apply existsb_ge_max; lia].
+  - unfold accumulate. cbn [fold_left]. split; [reflexivity | lia].
+Qed.
+
+Lemma level_step_w n w cols : forall pre i,
+  n = 2 \/ n = 3 -> length pre = Z.to_nat (2 ^ n - 1) ->
+  (forall col, In col cols -> length col = Z.to_nat n) -> 0 <= i ->
+  let pre' := accumulate pre (level_codes cols i) in
+  length pre' = length pre /\
+  wsumv n w pre' = wsumv n w pre + zsum (map (fun col => gw w col i) cols).
+Proof.
+  induction cols as [|col cols IH]; intros pre i Hn Hp Hc Hi.
+  - cbn. split; [reflexivity | lia].
+  - cbv zeta. rewrite level_codes_cons, accumulate_app.
+    destruct (col_step_w n w pre col i Hn Hp (Hc col (or_introl eq_refl)) Hi) as [H1 H2].
+    destruct (IH (accumulate pre (level_codes [col] i)) i Hn (eq_trans H1 Hp)
+                 (fun c Hc' => Hc c (or_intror Hc')) Hi) as [H3 H4].
+    split; [congruence|]. rewrite H4, H2. cbn [map zsum fold_right].
+    fold (zsum (map (fun c => gw w c i) cols)). lia.
+Qed.
+
+Lemma levels_step_w n w cols (levels : list Z) : forall pre,
+  n = 2 \/ n = 3 -> length pre = Z.to_nat (2 ^ n - 1) ->
+  (forall col, In col cols -> length col = Z.to_nat n) ->
+  (forall i, In i levels -> 0 <= i) ->
+  let pre' := fold_left (fun p i => accumulate p (level_codes cols i)) levels pre in
+  length pre' = length pre /\
+  wsumv n w pre' = wsumv n w pre + zsum (map (fun i => zsum (map (fun col => gw w col i) cols)) levels).
+Proof.
+  induction levels as [|i levels IH]; intros pre Hn Hp Hc Hl.
+  - cbn. split; [reflexivity | lia].
+  - cbv zeta. cbn [fold_left].
+    destruct (level_step_w n w cols pre i Hn Hp Hc (Hl i (or_introl eq_refl))) as [H1 H2].
+    destruct (IH (accumulate pre (level_codes cols i)) Hn (eq_trans H1 Hp) Hc
+                 (fun j Hj => Hl j (or_intror Hj))) as [H3 H4].
+    split; [congruence|]. rewrite H4, H2. cbn [map zsum fold_right].
+    fold (zsum (map (fun i0 => zsum (map (fun col => gw w col i0) cols)) levels)). lia.
+Qed.
+
+Lemma zsum_zrange_tail (f : Z -> Z) (a b : nat) : (a <= b)%nat ->
+  (forall i, Z.of_nat a <= i < Z.of_nat b -> f i = 0) ->
+  zsum (map f (zrange b)) = zsum (map f (zrange a)).
+Proof.
+  intros Hab. induction b as [|b IH]; intros H.
+  - replace a with 0%nat by lia. reflexivity.
+  - destruct (Nat.eq_dec a (S b)) as [->|Hne]; [reflexivity|].
+    rewrite zrange_S, map_app, zsum_app. cbn [map zsum fold_right].
+    rewrite (H (Z.of_nat b)) by lia. rewrite IH; [lia | lia |]. intros i Hi. apply H. lia.
+Qed.
+
+Lemma venn_chunk_w n w cols pre :
+  n = 2 \/ n = 3 -> length pre = Z.to_nat (2 ^ n - 1) ->
+  (forall col, In col cols -> length col = Z.to_nat n) ->
+  length (venn_chunk cols pre) = length pre /\
+  wsumv n w (venn_chunk cols pre) = wsumv n w pre + zsum (map (Fw w) cols).
+Proof.
+  intros Hn Hp Hc. unfold venn_chunk.
+  set (M := Z.to_nat (zmaxl (map zmaxl cols))).
+  destruct (levels_step_w n w cols (zrange M) pre Hn Hp Hc) as [H1 H2].
+  { intros i Hi. apply in_zrange in Hi. lia. }
+  split; [exact H1|]. rewrite H2. f_equal.
+  rewrite zsum_swap. apply zsum_map_ext. intros col Hcol. unfold Fw.
+  change (fun a => gw w col a) with (gw w col).
+  assert (Hm : zmaxl col <= Z.of_nat M).
+  { unfold M. rewrite Z2Nat.id by apply zmaxl_nonneg. apply zmaxl_ge, in_map, Hcol. }
+  pose proof (zmaxl_nonneg col).
+  apply zsum_zrange_tail; [lia|]. intros i Hi. unfold gw.
+  destruct (Z.gtb_spec (zmaxl col - i) 0); [lia | reflexivity].
+Qed.
+
+Definition chunk_w (P : vparams) (trains : list (list spike)) (w : Z -> Z) (ch : Z) : Z :=
+  match chunk_cols P trains ch with Some cols => zsum (map (Fw w) cols) | None => 0 end.
+
+Lemma venn_loop_w P (trains : list (list spike)) n w : forall chs pre res,
+  n = 2 \/ n = 3 -> n = Z.of_nat (length trains) -> length pre = Z.to_nat (2 ^ n - 1) ->
+  venn_loop P trains chs pre = Some res ->
+  length res = length pre /\
+  (forall ch, In ch chs -> chunk_cols P trains ch <> None) /\
+  wsumv n w res = wsumv n w pre + zsum (map (chunk_w P trains w) chs).
+Proof.
+  induction chs as [|ch chs IH]; intros pre res Hn Hlen Hp H; cbn [venn_loop] in H.
+  - inversion H. split; [reflexivity|]. split; [intros ch []|]. cbn. lia.
+  - destruct (chunk_cols P trains ch) as [cols|] eqn:Hc; [|discriminate].
+    assert (Hcl : forall col, In col cols -> length col = Z.to_nat n).
+    { unfold chunk_cols in Hc. destruct (chunk_ids P trains ch) as [idss|] eqn:Hids; [|discriminate].
+      inversion Hc; subst cols. intros col Hcol. unfold cols_of in Hcol. apply in_map_iff in Hcol.
+      destruct Hcol as [j [<- _]]. rewrite map_length. unfold chunk_ids in Hids.
+      apply option_all_length in Hids. lia. }
+    destruct (venn_chunk_w n w cols pre Hn Hp Hcl) as [H1 H2].
+    destruct (IH _ _ Hn Hlen (eq_trans H1 Hp) H) as [H3 [HF H4]].
+    split; [congruence|]. split.
+    + intros c [<-|Hc']; [congruence | now apply HF].
+    + rewrite H4, H2. cbn [map zsum fold_right]. unfold chunk_w at 2. rewrite Hc.
+      fold (zsum (map (chunk_w P trains w) chs)). lia.
+Qed.
+
+(* --- generic helpers --- *)
+Lemma option_all_map_fun {A B} (f : A -> option B) (g : A -> B) : forall l l',
+  (forall x y, In x l -> f x = Some y -> y = g x) -> option_all (map f l) = Some l' -> l' = map g l.
+Proof.
+  induction l as [|a l IH]; intros l' Hfg H; cbn [map option_all] in H.
+  - inversion H. reflexivity.
+  - destruct (f a) as [b|] eqn:Fa; [|discriminate].
+    destruct (option_all (map f l)) as [r|] eqn:Hr; [|discriminate]. inversion H; subst l'. cbn [map].
+    f_equal; [apply Hfg; [now left | exact Fa]|]. apply IH; [|reflexivity].
+    intros x y Hx. apply Hfg. now right.
+Qed.
+
+Lemma count_eq_map {A} (h : A -> Z) j l :
+  count_eq j (map h l) = Z.of_nat (length (filter (fun x => j =? h x) l)).
+Proof.
+  unfold count_eq. f_equal. induction l as [|a l IH]; [reflexivity|]. cbn [map filter].
+  destruct (j =? h a); cbn [length]; now rewrite IH.
+Qed.
+
+Lemma filter_filter {A} (p q : A -> bool) l : filter p (filter q l) = filter (fun x => q x && p x) l.
+Proof.
+  induction l as [|a l IH]; [reflexivity|]. cbn [filter]. destruct (q a); cbn [filter andb]; [|exact IH].
+  destruct (p a); now rewrite IH.
+Qed.
+
+Lemma filter_none {A} (p : A -> bool) l : (forall x, In x l -> p x = false) -> filter p l = [].
+Proof.
+  induction l as [|a l IH]; intros H; [reflexivity|]. cbn [filter]. rewrite (H a (or_introl eq_refl)).
+  apply IH. intros x Hx. apply H. now right.
+Qed.
+
+Lemma zmaxl_zeros {A} (l : list A) : zmaxl (map (fun _ => 0) l) = 0.
+Proof. induction l as [|a l IH]; [reflexivity|]. cbn [map zmaxl fold_right]. fold (zmaxl (map (fun _ : A => 0) l)). rewrite IH. reflexivity. Qed.
+
+Lemma Fw_zeros {A} w (l : list A) : Fw w (map (fun _ => 0) l) = 0.
+Proof. unfold Fw. rewrite zmaxl_zeros. reflexivity. Qed.
+
+Lemma zrange_plus (a b : nat) : zrange (a + b) = zrange a ++ map (fun k => Z.of_nat a + k) (zrange b).
+Proof.
+  induction b as [|b IH]; [rewrite Nat.add_0_r, app_nil_r; reflexivity|].
+  rewrite Nat.add_succ_r, !zrange_S, IH, map_app, app_assoc. cbn [map]. do 2 f_equal. lia.
+Qed.
+
+(* sum over a*q + b, a < N, b < q  =  sum over j < N*q *)
+Lemma zsum_reindex (f : Z -> Z) (N q : nat) :
+  zsum (map (fun a => zsum (map (fun b => f (a * Z.of_nat q + b)) (zrange q))) (zrange N))
+  = zsum (map f (zrange (N * q))).
+Proof.
+  induction N as [|N IH]; [reflexivity|].
+  rewrite zrange_S, map_app, zsum_app, IH. cbn [map zsum fold_right].
+  replace (S N * q)%nat with (N * q + q)%nat by lia. rewrite zrange_plus, map_app, zsum_app, map_map.
+  f_equal. rewrite Z.add_0_r. apply zsum_map_ext. intros b _. f_equal. lia.
+Qed.
+
+(* --- the per-sorter spike counts of a global time/channel bin --- *)
+Definition colG (P : vparams) (trains : list (list spike)) (X Y : Z) : list Z :=
+  map (fun t => Z.of_nat (length (filter (fun sp : spike => (fst sp / v_xbin P =? X) && (snd sp / v_ybin P =? Y)) t)))
+      trains.
+
+Definition bin_of (P : vparams) (ch : Z) (sp : spike) : Z :=
+  (snd sp / v_ybin P) * v_nx P + (fst sp - ch * v_chunk P) / v_xbin P.
+
+Lemma chunk_ids_some P trains ch idss : chunk_ids P trains ch = Some idss ->
+  idss = map (fun t => map (bin_of P ch) (chunk_spikes (ch * v_chunk P) (v_chunk P) t)) trains.
+Proof.
+  unfold chunk_ids. apply option_all_map_fun. intros t ids _ Hids.
+  revert Hids. apply option_all_map_fun. intros sp v _ Hv. unfold bin_id in Hv.
+  destruct (_ && _); [|discriminate]. inversion Hv. reflexivity.
+Qed.
+
+Lemma nscale_aligned q xbin : 0 < xbin -> 0 <= q -> nscale (q * xbin) xbin = q + 1.
+Proof. intros Hx Hq. unfold nscale. apply cdiv_unique; nia. Qed.
+
+(* in an aligned chunk, local bin (Y, xi) is the global bin (ch*q + xi, Y); the extra column xi = q is empty *)
+Lemma aligned_pred xbin q ch s Y yb xi :
+  0 < xbin -> 0 < q -> 0 <= xi < q + 1 ->
+  ((ch * (q * xbin) <=? s) && (s <? ch * (q * xbin) + q * xbin))
+    && (Y * (q + 1) + xi =? yb * (q + 1) + (s - ch * (q * xbin)) / xbin)
+  = (xi <? q) && ((s / xbin =? ch * q + xi) && (yb =? Y)).
+Proof.
+  intros Hx Hq Hxi.
+  pose proof (Z.div_mod s xbin ltac:(lia)) as Hdm. pose proof (Z.mod_pos_bound s xbin Hx) as Hm.
+  assert (E : (s - ch * (q * xbin)) / xbin = s / xbin - ch * q).
+  { symmetry. apply (Z.div_unique _ xbin _ (s mod xbin)); [lia | nia]. }
+  rewrite E. set (X := s / xbin) in *. set (r := s mod xbin) in *.
+  apply eq_true_iff_eq. rewrite !andb_true_iff, !Z.leb_le, !Z.ltb_lt, !Z.eqb_eq. split.
+  - intros [[H1 H2] H3].
+    assert (ch * q <= X < ch * q + q) by nia.
+    assert (Y = yb) by nia. subst yb. split; [nia|]. split; [nia | reflexivity].
+  - intros [H1 [H2 H3]]. subst yb. split; [split; nia | nia].
+Qed.
+
+Lemma max_sample_nonneg (trains : list (list spike)) : 0 <= max_sample trains.
+Proof. apply zmaxl_nonneg. Qed.
+
+Section Aligned.
+Variable P : vparams.
+Variable trains : list (list spike).
+Variable q : Z.
+Hypothesis Hq : 0 < q.
+Hypothesis Hx : 0 < v_xbin P.
+Hypothesis Hchunk : v_chunk P = q * v_xbin P.
+Hypothesis Hny : 0 <= v_ny P.
+Set Default Proof Using "Hq Hx Hchunk Hny".
+
+Lemma nx_aligned : v_nx P = q + 1.
+Proof. unfold v_nx. rewrite Hchunk. apply nscale_aligned; lia. Qed.
+
+(* the count vector of local bin Y*nx + xi of chunk ch *)
+Lemma colv_aligned ch idss Y xi : chunk_ids P trains ch = Some idss -> 0 <= xi < q + 1 ->
+  map (count_eq (Y * (q + 1) + xi)) idss
+  = if xi <? q then colG P trains (ch * q + xi) Y else map (fun _ => 0) trains.
+Proof.
+  intros Hids Hxi. rewrite (chunk_ids_some P trains ch idss Hids), map_map.
+  assert (Hcol : forall t, count_eq (Y * (q + 1) + xi) (map (bin_of P ch) (chunk_spikes (ch * v_chunk P) (v_chunk P) t))
+            = Z.of_nat (length (filter (fun sp : spike => (xi <? q) && ((fst sp / v_xbin P =? ch * q + xi) && (snd sp / v_ybin P =? Y))) t))).
+  { intros t. rewrite count_eq_map. unfold chunk_spikes. rewrite filter_filter. do 2 f_equal.
+    apply filter_ext. intros sp. unfold in_chunk, bin_of. rewrite nx_aligned, Hchunk.
+    apply aligned_pred; lia. }
+  destruct (Z.ltb_spec xi q) as [Hlt|Hge].
+  - unfold colG. apply map_ext. intros t. rewrite Hcol. reflexivity.
+  - apply map_ext. intros t. rewrite Hcol. cbn [andb]. rewrite filter_none; [reflexivity | reflexivity].
+Qed.
+
+Lemma chunk_w_aligned w ch : chunk_cols P trains ch <> None ->
+  chunk_w P trains w ch
+  = zsum (map (fun Y => zsum (map (fun xi => Fw w (colG P trains (ch * q + xi) Y)) (zrange (Z.to_nat q))))
+              (zrange (Z.to_nat (v_ny P)))).
+Proof.
+  intros Hsome. unfold chunk_w, chunk_cols in *.
+  destruct (chunk_ids P trains ch) as [idss|] eqn:Hids; [|contradiction].
+  unfold cols_of. rewrite map_map, nx_aligned.
+  replace (Z.to_nat ((q + 1) * v_ny P)) with (Z.to_nat (v_ny P) * Z.to_nat (q + 1))%nat by nia.
+  rewrite <- (zsum_reindex (fun j => Fw w (map (count_eq j) idss))).
+  apply zsum_map_ext. intros Y _.
+  rewrite Z2Nat.id by lia.
+  replace (Z.to_nat (q + 1)) with (S (Z.to_nat q)) by lia.
+  rewrite zrange_S, map_app, zsum_app. cbn [map zsum fold_right].
+  rewrite (colv_aligned ch idss Y (Z.of_nat (Z.to_nat q)) Hids) by lia.
+  destruct (Z.ltb_spec (Z.of_nat (Z.to_nat q)) q); [lia|]. rewrite Fw_zeros.
+  rewrite (zsum_map_ext _ (fun xi => Fw w (colG P trains (ch * q + xi) Y))); [lia|].
+  intros xi Hxi. apply in_zrange in Hxi. rewrite (colv_aligned ch idss Y xi Hids) by lia.
+  destruct (Z.ltb_spec xi q); [reflexivity | lia].
+Qed.
+
+(* the functional of the result in chunk-free form *)
+Definition venn_global (w : Z -> Z) : Z :=
+  zsum (map (fun Y => zsum (map (fun X => Fw w (colG P trains X Y))
+                                (zrange (Z.to_nat (max_sample trains / v_xbin P + 1)))))
+            (zrange (Z.to_nat (v_ny P)))).
+
+Lemma colG_beyond X Y : (forall t sp, In t trains -> In sp t -> 0 <= fst sp) ->
+  max_sample trains / v_xbin P < X -> colG P trains X Y = map (fun _ => 0) trains.
+Proof.
+  intros Hpos HX. unfold colG. apply map_ext_in. intros t Ht. rewrite filter_none; [reflexivity|].
+  intros sp Hsp. assert (Hmax : fst sp <= max_sample trains).
+  { unfold max_sample. etransitivity; [apply (zmaxl_ge (map fst t)), in_map, Hsp|].
+    apply zmaxl_ge. apply (in_map (fun t => zmaxl (map fst t))), Ht. }
+  pose proof (Z.div_le_mono _ _ (v_xbin P) Hx Hmax).
+  destruct (Z.eqb_spec (fst sp / v_xbin P) X); [lia | reflexivity].
+Qed.
+
+Theorem venn_aligned_global res n w :
+  n = Z.of_nat (length trains) -> n = 2 \/ n = 3 ->
+  (forall t sp, In t trains -> In sp t -> 0 <= fst sp) ->
+  venn P trains = Some res ->
+  Z.of_nat (length res) = 2 ^ n - 1 /\ wsumv n w res = venn_global w.
+Proof.
+  intros Hlen Hn Hpos H. unfold venn in H.
+  match type of H with (if ?b then _ else _) = _ => destruct b end; [discriminate|].
+  rewrite <- Hlen in H.
+  destruct (venn_loop_w P trains n w _ _ res Hn Hlen (repeat_length _ _) H) as [H1 [HS H2]].
+  split. { rewrite H1, repeat_length. destruct Hn as [-> | ->]; reflexivity. }
+  rewrite H2.
+  assert (Hz : wsumv n w (repeat 0 (Z.to_nat (2 ^ n - 1))) = 0) by (destruct Hn as [-> | ->]; cbv -[Z.add Z.mul]; cbn; lia).
+  rewrite Hz, Z.add_0_l.
+  set (N := Z.to_nat (max_sample trains / v_chunk P + 1)) in *.
+  rewrite (zsum_map_ext _ (fun ch => zsum (map (fun Y => zsum (map (fun xi => Fw w (colG P trains (ch * q + xi) Y))
+                (zrange (Z.to_nat q)))) (zrange (Z.to_nat (v_ny P))))))
+    by (intros ch Hch; apply chunk_w_aligned, HS, Hch).
+  rewrite zsum_swap. unfold venn_global. apply zsum_map_ext. intros Y _.
+  transitivity (zsum (map (fun X => Fw w (colG P trains X Y)) (zrange (N * Z.to_nat q)))).
+  { rewrite <- zsum_reindex. apply zsum_map_ext. intros a _. apply zsum_map_ext. intros b _.
+    rewrite Z2Nat.id by lia. reflexivity. }
+  pose proof (max_sample_nonneg trains) as Hm0.
+  assert (Hc : 0 < v_chunk P) by nia.
+  assert (HB : (Z.to_nat (max_sample trains / v_xbin P + 1) <= N * Z.to_nat q)%nat).
+  { pose proof (Z.div_pos (max_sample trains) (v_xbin P) Hm0 Hx).
+    pose proof (Z.div_pos (max_sample trains) (v_chunk P) Hm0 Hc).
+    assert (max_sample trains / v_xbin P < (max_sample trains / v_chunk P + 1) * q).
+    { apply Z.div_lt_upper_bound; [lia|].
+      pose proof (Z.div_mod (max_sample trains) (v_chunk P) ltac:(lia)).
+      pose proof (Z.mod_pos_bound (max_sample trains) (v_chunk P) Hc). nia. }
+    unfold N. nia. }
+  apply zsum_zrange_tail; [exact HB|]. intros X HXr.
+  rewrite colG_beyond; [apply Fw_zeros | exact Hpos | ].
+  pose proof (Z.div_pos (max_sample trains) (v_xbin P) Hm0 Hx). lia.
+Qed.
+End Aligned.
+Unset Default Proof Using.
+
+Lemma wsumv2 w a b c : wsumv 2 w [a; b; c] = w 1 * a + w 2 * b + w 3 * c.
+Proof. cbv -[Z.add Z.mul]; cbn; lia. Qed.
+Lemma wsumv3 w a b c d e f g :
+  wsumv 3 w [a; b; c; d; e; f; g] = w 1 * a + w 2 * b + w 3 * c + w 4 * d + w 5 * e + w 6 * f + w 7 * g.
+Proof. cbv -[Z.add Z.mul]; cbn; lia. Qed.
+
+Lemma wsumv_ext n (r1 r2 : list Z) : n = 2 \/ n = 3 ->
+  Z.of_nat (length r1) = 2 ^ n - 1 -> Z.of_nat (length r2) = 2 ^ n - 1 ->
+  (forall w, wsumv n w r1 = wsumv n w r2) -> r1 = r2.
+Proof.
+  intros [-> | ->] H1 H2 H.
+  - destruct r1 as [|a1 [|a2 [|a3 [|? ?]]]]; cbn [length] in H1; try lia.
+    destruct r2 as [|b1 [|b2 [|b3 [|? ?]]]]; cbn [length] in H2; try lia.
+    assert (E : forall k, (if k =? 1 then 1 else 0) * a1 + (if k =? 2 then 1 else 0) * a2 + (if k =? 3 then 1 else 0) * a3
+                        = (if k =? 1 then 1 else 0) * b1 + (if k =? 2 then 1 else 0) * b2 + (if k =? 3 then 1 else 0) * b3).
+    { intros k. pose proof (H (fun c => if k =? c then 1 else 0)) as E. rewrite !wsumv2 in E.
+      exact E. }
+    pose proof (E 1) as E1. pose proof (E 2) as E2. pose proof (E 3) as E3.
+    cbn -[Z.mul Z.add] in E1, E2, E3. repeat f_equal; lia.
+  - destruct r1 as [|a1 [|a2 [|a3 [|a4 [|a5 [|a6 [|a7 [|? ?]]]]]]]]; cbn [length] in H1; try lia.
+    destruct r2 as [|b1 [|b2 [|b3 [|b4 [|b5 [|b6 [|b7 [|? ?]]]]]]]]; cbn [length] in H2; try lia.
+    assert (E : forall k, let i c := if k =? c then 1 else 0 in
+       i 1 * a1 + i 2 * a2 + i 3 * a3 + i 4 * a4 + i 5 * a5 + i 6 * a6 + i 7 * a7
+       = i 1 * b1 + i 2 * b2 + i 3 * b3 + i 4 * b4 + i 5 * b5 + i 6 * b6 + i 7 * b7).
+    { intros k i. pose proof (H i) as E. rewrite !wsumv3 in E. exact E. }
+    pose proof (E 1) as E1. pose proof (E 2) as E2. pose proof (E 3) as E3. pose proof (E 4) as E4.
+    pose proof (E 5) as E5. pose proof (E 6) as E6. pose proof (E 7) as E7.
+    cbn -[Z.mul Z.add] in E1, E2, E3, E4, E5, E6, E7. repeat f_equal; lia.
+Qed.
+
+(* Two chunk sizes that are both multiples of the time bin give the SAME dictionary: the whole
+   result, not only the per-sorter sums, is independent of a bin-aligned chunking. *)
+Theorem venn_chunk_invariant_aligned (xbin ybin nchan q1 q2 : Z) (trains : list (list spike)) r1 r2 n :
+  0 < xbin -> 0 < q1 -> 0 < q2 -> 0 <= nscale nchan ybin ->
+  n = Z.of_nat (length trains) -> n = 2 \/ n = 3 ->
+  (forall t sp, In t trains -> In sp t -> 0 <= fst sp) ->
+  venn {| v_xbin := xbin; v_ybin := ybin; v_nchan := nchan; v_chunk := q1 * xbin |} trains = Some r1 ->
+  venn {| v_xbin := xbin; v_ybin := ybin; v_nchan := nchan; v_chunk := q2 * xbin |} trains = Some r2 ->
+  r1 = r2.
+Proof.
+  intros Hx Hq1 Hq2 Hny Hlen Hn Hpos V1 V2.
+  set (P1 := {| v_xbin := xbin; v_ybin := ybin; v_nchan := nchan; v_chunk := q1 * xbin |}) in *.
+  set (P2 := {| v_xbin := xbin; v_ybin := ybin; v_nchan := nchan; v_chunk := q2 * xbin |}) in *.
+  assert (G1 := fun w => venn_aligned_global P1 trains q1 Hq1 Hx eq_refl Hny r1 n w Hlen Hn Hpos V1).
+  assert (G2 := fun w => venn_aligned_global P2 trains q2 Hq2 Hx eq_refl Hny r2 n w Hlen Hn Hpos V2).
+  apply (wsumv_ext n r1 r2 Hn (proj1 (G1 (fun _ => 0))) (proj1 (G2 (fun _ => 0)))).
+  intros w. rewrite (proj2 (G1 w)), (proj2 (G2 w)). reflexivity.
+Qed.
